@@ -1396,6 +1396,9 @@ func (in *Interp) callFuncVal(fv *FuncVal, x *ast.CallExpr) []Value {
 		}
 		return in.callFunc(fn, nil, rv, in.argsPacked(shifted, sig))
 	}
+	if fv.BoundOpaque != nil {
+		return in.opaqueMethod(fv.BoundOpaque, fv.OpaqueMethod, x)
+	}
 	if fv.Bound != nil {
 		return in.callFunc(fv.Bound, fv.RecvCell, fv.RecvVal, in.argsPacked(x, fv.Bound.Type().(*types.Signature)))
 	}
